@@ -14,7 +14,7 @@ namespace Edxml
 
 /-- Validity of an `<ontology>` element: schema-valid and mergeable; schema-valid but rejected by
 `Ontology.update`; schema-invalid and rejected by `update`; schema-invalid but accepted by `update`
-(the fallback "for better messages" in `__validate_ontology_element` then processes it). -/
+(both are rejected; the difference only shows in the message). -/
 inductive OntV | ok | semFail | schemaSemFail | schemaSemOk
 deriving Repr, DecidableEq
 
@@ -120,13 +120,10 @@ def pstep (reg : Registry) (s : PState) : Item → PState × Option PErr
       if s.initialSeen then ({ s with children := s.children.eraseIdx 1 }, none)
       else ({ s with initialSeen := true }, none)
     | .semFail => (s, some .ontologyValidation)
-    | .schemaSemFail =>
-      -- schema validation failed: every ontology element still in the tree up to this one is
-      -- processed (again) to obtain a better message, then the error is raised
-      (reprocess reg (s.children.dropLast.filter (· == Kind.ont)).length s, some .ontologyValidation)
-    | .schemaSemOk =>
-      (processOnt reg (reprocess reg (s.children.dropLast.filter (· == Kind.ont)).length s) types sources,
-        some .ontologyValidation)
+    | .schemaSemFail | .schemaSemOk =>
+      -- schema validation failed: the element is tried on a scratch copy of the ontology to obtain a better
+      -- message; neither the parser's ontology nor any callback sees it
+      (s, some .ontologyValidation)
   | .event idx type source gateOk =>
     let s := { s with children := s.children ++ [Kind.event] }
     match s.ont with
